@@ -104,6 +104,14 @@ class Expr:
                     _add_unique(out, v)
         return out
 
+    def domain(self, env):
+        """implicit domain constraints of the atoms below this node (cvxpy: log(x) requires x > 0)"""
+        out = []
+        for a in self.args:
+            if isinstance(a, Expr):
+                out.extend(a.domain(env))
+        return out
+
     # -- evaluation at a point: env maps Variable -> object ndarray
     def ev(self, env):
         raise NotImplementedError
@@ -381,6 +389,13 @@ class Fn(Expr):
         self.kw = kw
         super().__init__(shape, args)
 
+    def domain(self, env):
+        out = super().domain(env)
+        if self.op == "log":
+            a = self.args[0].ev(env)
+            out.append(sym_and([SymReal.lift(e) > 0 for e in a.ravel().tolist()]))
+        return out
+
     def ev(self, env):
         n = self.op
         a = self.args[0].ev(env)
@@ -598,6 +613,10 @@ class Problem:
 
     def feasible_at(self, env):
         conds = [c.holds(env) for c in self.constraints]
+        conds.extend(self.objective.expr.domain(env))
+        for c in self.constraints:
+            conds.extend(c.lhs.domain(env))
+            conds.extend(c.rhs.domain(env))
         for v in self.variables():
             if v.pos:
                 conds.append(sym_and([SymReal.lift(e) >= 0 for e in _obj(env[v]).ravel().tolist()]))
